@@ -15,6 +15,7 @@ import traceback
 import numpy as np
 
 from . import env
+from . import cover
 
 EVID_DIR = os.environ.get('PVM_EVID_DIR') or os.path.join(env.VERIF_DIR, 'evidence')
 REPLAY_DIR = os.environ.get('PVM_REPLAY_DIR') or os.path.join(env.VERIF_DIR, 'replays')
@@ -93,6 +94,7 @@ class Ctx:
         self._known_open = {e['key']: e for e in load_known()
                             if e.get('status') == 'open' and e.get('property') == pid}
         self._case_failed = False
+        self.coverage = {}
 
     # ---- cases -------------------------------------------------------------------------------
     def case(self, sig, nontrivial=True, sample=None, info=None):
@@ -229,7 +231,7 @@ class Ctx:
             'classes': dict(self.classes), 'mon': self.mon, 'events': dict(self.events),
             'violations': self.violations, 'known_seen': dict(self.known_seen), 'known_what': self.known_what,
             'samples': self.samples, 'exhaustive': self.exhaustive, 'inconclusive': self.inconclusive,
-            'workloads': dict(self.workloads),
+            'workloads': dict(self.workloads), 'coverage': self.coverage,
         }
 
     def merge(self, d):
@@ -260,6 +262,8 @@ class Ctx:
                 self.exhaustive.append(e)
         self.inconclusive += d['inconclusive']
         self.workloads.update(d['workloads'])
+        for k, v in d.get('coverage', {}).items():
+            self.coverage[k] = sorted(set(self.coverage.get(k, [])) | set(v))
 
     # ---- verdict -----------------------------------------------------------------------------
     def finish(self, spec):
@@ -298,6 +302,7 @@ class Ctx:
                     'distinct_signatures_all': len(self.sigs),
                     'known_findings_seen': dict(self.known_seen),
                     'fp_and_warning_events': dict(self.events),
+                    'anchor_coverage': cover.summarise(self.coverage),
                     'verdict': {0: 'held on everything monitored', 1: 'violated', 2: 'inconclusive'}[code],
                     'inconclusive_reasons': sorted(set(self.inconclusive)),
                     'violation_list': [{k: v[k] for k in ('monitor', 'message', 'workload', 'index', 'replay')}
@@ -336,7 +341,18 @@ class Workload:
 
 
 def run_workloads(ctx, spec, only=None):
-    """Run this shard's part of every workload of the property."""
+    """Run this shard's part of every workload of the property (line coverage of the anchored files recorded meanwhile)."""
+    cov = cover.LineCoverage(cover.anchored_files(ctx.pid))
+    cov.start()
+    try:
+        _run_workloads(ctx, spec, only)
+    finally:
+        cov.stop()
+        for k, v in cov.result().items():
+            ctx.coverage[k] = sorted(set(ctx.coverage.get(k, [])) | set(v))
+
+
+def _run_workloads(ctx, spec, only=None):
     si, sn = ctx.shard
     for wl in spec['workloads']:
         if only and wl.name != only[0]:
